@@ -20,15 +20,16 @@ EXTENDS Engine
 
 VARIABLES batch,      \* persisted: the trigger's batch flag
           batchReg, resumeReg, parentReg, hookReg,
-          nrestarts
+          nrestarts,
+          refreshes   \* history: for every resume call, whether the resume carries a refreshed environment and contact
 
-pvars == <<batch, batchReg, resumeReg, parentReg, hookReg, nrestarts>>
+pvars == <<batch, batchReg, resumeReg, parentReg, hookReg, nrestarts, refreshes>>
 allvars == <<vars, pvars>>
 pview == <<core, pvars>>
 
 CONSTANT MaxRestarts
 
-PInit == Init /\ batch \in BOOLEAN /\ batchReg = FALSE /\ resumeReg = "none" /\ parentReg = FALSE /\ hookReg = 0 /\ nrestarts = 0
+PInit == Init /\ batch \in BOOLEAN /\ batchReg = FALSE /\ resumeReg = "none" /\ parentReg = FALSE /\ hookReg = 0 /\ nrestarts = 0 /\ refreshes = <<>>
 
 \* prepareForSprint loads the parent run summary from the trigger if it is not there yet
 LoadParent == parentReg' = (trig' = "flow_action")
@@ -36,24 +37,26 @@ LoadParent == parentReg' = (trig' = "flow_action")
 PStart(t, f) ==
   /\ Start(t, f)
   /\ batchReg' = batch /\ resumeReg' = "none" /\ LoadParent /\ hookReg' = 0
-  /\ UNCHANGED <<batch, nrestarts>>
+  /\ UNCHANGED <<batch, nrestarts, refreshes>>
 
 \* visiting a node may call a webhook (every act node of the C02 materialisation does): run.webhook := that call
 PLoop ==
   /\ Loop
   /\ hookReg' = IF nsteps' > nsteps /\ nsteps' <= MaxSteps THEN 1 ELSE hookReg
-  /\ UNCHANGED <<batch, batchReg, resumeReg, parentReg, nrestarts>>
+  /\ UNCHANGED <<batch, batchReg, resumeReg, parentReg, nrestarts, refreshes>>
 
 PResumeAccept(k) ==
   /\ ResumeAccept(k)
   /\ resumeReg' = k
   /\ batchReg' = IF "batch_kept_live" \in Quirks THEN batchReg ELSE FALSE   \* a resumed session is no longer a batch start
   /\ LoadParent
+  /\ \E r \in BOOLEAN : refreshes' = Append(refreshes, r)   \* the resume may bring a changed environment / contact
   /\ UNCHANGED <<batch, hookReg, nrestarts>>
 
 PResumeOther(k) ==
   /\ (ResumeReject(k) \/ ResumeFail(k))
   /\ LoadParent
+  /\ \E r \in BOOLEAN : refreshes' = Append(refreshes, r)
   /\ UNCHANGED <<batch, batchReg, resumeReg, hookReg, nrestarts>>
 
 \* json.Marshal(session) followed by Engine.ReadSession: the envelope survives, the registers are re-derived
@@ -66,7 +69,7 @@ Restart ==
   /\ hookReg' = 2               \* lastWebhookSavedAsExtra: not the live value (allowed to differ)
   /\ nrestarts' = nrestarts + 1
   /\ hist' = Append(hist, [op |-> "restart", kind |-> "restart", choice |-> -1])
-  /\ UNCHANGED <<core, plan, exps, batch>>
+  /\ UNCHANGED <<core, plan, exps, batch, refreshes>>
 
 PNext ==
   \/ \E t \in TrigKinds, f \in Flows : PStart(t, f)
